@@ -52,6 +52,72 @@ def add_states(spec, rng, prob=0.6, max_size=3):
     return spec
 
 
+def integerize_functions(spec, rng, prob=0.8):
+    """Give the non-coupling outputs ``f_i`` small integer coefficients and no quadratic term (in place).
+
+    Their partial Jacobians are then constant integer matrices, which a hand-written discipline may well return
+    as integer arrays (see ``represent``).  The coupling outputs keep their real, contractive coefficients.
+    """
+    for d in spec["disciplines"]:
+        if "f" in d and rng.random() < prob:
+            fs = d["f"][1]
+            d["B"] = {nm: rng.integers(-4, 5, (fs, s)).astype(float).tolist() for nm, s in d["inputs"]}
+            d["q"] = 0.0
+            d["int_f"] = True
+            if d.get("state") and "V" in d["state"]:
+                d["state"]["V"] = rng.integers(-4, 5, (fs, d["state"]["size"])).astype(float).tolist()
+    return spec
+
+
+# --------------------------------------------------------------------------- representations of a Jacobian block
+REPRESENTATIONS = ["float64", "int64", "int32", "float32", "complex", "fortran", "strided", "readonly", "mixed"]
+_MIXED = ["float64", "int64", "int32", "complex", "fortran", "strided", "readonly"]
+
+
+def represent(J, kind, key=""):
+    """The exact block ``J`` (float64, C order) in another dtype / memory layout a discipline may return.
+
+    int64/int32 apply only to blocks whose entries are integers (others stay float64: mixed dtypes inside one
+    discipline); ``mixed`` picks a representation per block from a hash of ``key``.
+    """
+    import zlib
+
+    J = np.array(J, dtype=float)
+    if kind == "mixed":
+        kind = _MIXED[zlib.crc32(key.encode()) % len(_MIXED)]
+    if kind in ("int64", "int32"):
+        return np.rint(J).astype(kind) if J.size and np.all(J == np.rint(J)) else J
+    if kind == "float32":
+        return J.astype(np.float32)
+    if kind == "complex":
+        return J.astype(complex)
+    if kind == "fortran":
+        return np.asfortranarray(J)
+    if kind == "strided":
+        big = np.full((2 * J.shape[0] + 1, 3 * J.shape[1] + 1), 7.5)
+        big[1::2, 1::3] = J
+        return big[1::2, 1::3]
+    if kind == "readonly":
+        J = J.copy()
+        J.setflags(write=False)
+        return J
+    return J
+
+
+def represent_output(v, kind):
+    """A discipline output as a strided view or a read-only array."""
+    v = np.array(v, dtype=float)
+    if kind == "strided":
+        big = np.full(2 * v.size + 1, -3.25)
+        big[1::2] = v
+        return big[1::2]
+    if kind == "readonly":
+        v = v.copy()
+        v.setflags(write=False)
+        return v
+    return v
+
+
 def _rescale(spec):
     """Row-sum norm of the effective coupling map (state eliminated) <= L."""
     worst = 0.0
@@ -329,8 +395,13 @@ class StateSystem(CoupledSystem):
         return float(np.linalg.cond(K))
 
     # -- gemseo side ---------------------------------------------------------
-    def make_disciplines(self, order=None, sparse=False, defaults=None, jac_kind=None):
-        """Fresh gemseo disciplines; ``jac_kind`` in {"dense", "sparse", "operator"}."""
+    def make_disciplines(self, order=None, sparse=False, defaults=None, jac_kind=None, jac_repr=None,
+                         out_repr=None):
+        """Fresh gemseo disciplines; ``jac_kind`` in {"dense", "sparse", "operator"}.
+
+        ``jac_repr`` (see ``REPRESENTATIONS``) is the dtype / layout of the dense blocks (dtype only for sparse
+        blocks, ignored for operators); ``out_repr`` in {None, "strided", "readonly"} that of the outputs.
+        """
         from gemseo.core.derivatives.jacobian_operator import JacobianOperator
         from gemseo.core.discipline import Discipline
 
@@ -377,15 +448,22 @@ class StateSystem(CoupledSystem):
 
             def _run(self, input_data):
                 self.n_run += 1
-                return system.eval_disc(self.d, input_data)
+                out = system.eval_disc(self.d, input_data)
+                if out_repr:
+                    out = {k: represent_output(v, out_repr) for k, v in out.items()}
+                return out
 
             def _compute_jacobian(self, input_names=(), output_names=()):
                 self.n_lin += 1
                 jac = system.partials_disc(self.d, {k: np.real(v) for k, v in self.io.data.items()})
+                if jac_repr and jac_kind == "dense":
+                    jac = {o: {i: represent(J, jac_repr, f"{o}|{i}") for i, J in ji.items()} for o, ji in jac.items()}
                 if jac_kind == "sparse":
                     from scipy.sparse import csr_array
 
-                    jac = {o: {i: csr_array(J) for i, J in ji.items()} for o, ji in jac.items()}
+                    kind = jac_repr if jac_repr in ("int64", "int32", "float32", "complex") else None
+                    jac = {o: {i: csr_array(represent(J, kind, "") if kind else J) for i, J in ji.items()}
+                           for o, ji in jac.items()}
                 elif jac_kind == "operator":
                     jac = {o: {i: ArrayOperator(np.array(J, dtype=float)) for i, J in ji.items()} for o, ji in jac.items()}
                 self.jac = jac
